@@ -72,6 +72,20 @@ def juxtapositions(k):
             yield "a: " + ''.join(t) + " ;\n\nb: 'y' ;\n\nb2: 'z' ;\n"
 
 
+def postfix_bindings():
+    """A repeated or bracketed element, each postfix spelling, and each prefix that may follow it, written without blanks
+    (`{b}-=b`, `','.{b}+@:b`, `(b)?n:'x'`): four lexemes, beyond the reach of the plain juxtapositions."""
+    heads = ['{b}', "','.{b}", "','%{b}", "','<{b}", "','>{b}", '(b)', 'b']
+    posts = ['', '+', '-', '*', '?']
+    binds = ['=', '+=', '@:', '@+:', 'n:', 'n=', 'n+:', 'n+=', '~', '|', '&', '->']
+    tails = ['b', "'x'", '`1`']
+    for h in heads:
+        for p in posts:
+            for b in binds:
+                for t in tails:
+                    yield "a: 'y' " + h + p + b + t + " ;\n\nb: 'y' ;\n"
+
+
 INVALID = {
     'unclosed': "a: ('x' ;\n",
     'bad-regex': "a: /(/ ;\n",
@@ -264,14 +278,14 @@ def run(rc):
     ed = list(dict.fromkeys(ed))
     rc.pmap(shard, ed)
     rc.coverage['edits'] = len(ed)
-    jx = [('juxtaposition', t) for t in juxtapositions(2 if quick else 3)]
+    jx = [('juxtaposition', t) for t in juxtapositions(2 if quick else 3)] + [('postfix-binding', t) for t in postfix_bindings()]
     rc.pmap(shard, jx)
     rc.coverage['juxtapositions'] = len(jx)
     c = rc.total.counts
     rc.rule = (f'{len(corpus)} grammar texts (every definition/terminator/parameter/string/pattern/postfix/join/name/group/decorator/directive/constant/'
                'comment spelling, the feature grammars of C13, invalid texts, the TatSu grammar itself) with measured rule coverage of _tatsu.ebnf, plus the complete '
                f'single-edit neighbourhood ({len(ed)} texts) of the short seeds, and every sequence of <= {2 if quick else 3} of {len(ELEMENTS)} element spellings '
-               f'written without blanks in a rule body ({len(jx)} texts); each read by the shipped generated parser, the shipped grammar model, the model '
+               f'written without blanks in a rule body, and every (repetition or group, postfix, binding prefix, element) quadruple written without blanks ({len(jx)} texts); each read by the shipped generated parser, the shipped grammar model, the model '
                'compiled now from _tatsu.ebnf and the parser regenerated now from it; non-trivial = text accepted by some reader')
     rc.coverage.update({'states': c.get('states', 0), 'transitions': c.get('transitions', 0),
                         'traces_validated_against_impl': c.get('evaluations', 0), 'programs': 4})
